@@ -11,3 +11,13 @@ def body(*args, _t, _n=1, **kwargs):
 def none_body(*args, _t, _n=1, **kwargs):
     """A task whose value is None (a legitimate Python value)."""
     return None
+
+
+FALSY = [0, "", False, [], 0.0, ()]
+
+
+def falsy_body(*args, _t, _n=1, **kwargs):
+    """A task whose values are falsy but not None (0, "", False, [], ...): legitimate Python values."""
+    if _n == 1:
+        return FALSY[len(_t) % len(FALSY)]
+    return (FALSY[i % len(FALSY)] for i in range(_n))
